@@ -88,11 +88,13 @@ def collect(ctx, prop):
     stf = ctx.path("stress-trace.ndjson")
     pr = ctx.run_harness(["concstress", ssf, stf], race=True, timeout=2400, check=False, env={"GORACE": "halt_on_error=0 exitcode=0 history_size=5"})
     races = parse_races(pr.stderr)
-    m = re.search(r"fatal error: concurrent map [a-z ]+", pr.stderr)
+    m = re.search(r"fatal error: concurrent map [a-z ]+|panic: sync: WaitGroup (?:misuse: Add called concurrently with Wait|is reused before previous Wait has returned)|panic: sync: negative WaitGroup counter", pr.stderr)
     if m:
         # the runtime's own detector of unsynchronised map access aborted the process
-        frames = re.findall(r'\n\s+(/repo/[^\s:]+):(\d+)', pr.stderr)
-        races["runtime:" + m.group(0).replace("fatal error: ", "").replace(" ", "-") + ":" + "+".join(sorted({os.path.basename(f) for f, _ in frames[:4]}))] = pr.stderr[-3000:]
+        frames = re.findall(r'\n\s+(' + re.escape(os.path.realpath(REPO)) + r'/[^\s:]+):(\d+)', pr.stderr)
+        races["runtime:" + m.group(0).replace("fatal error: ", "").replace("panic: sync: ", "").replace(":", "").replace(" ", "-") + ":" + "+".join(sorted({os.path.basename(f) for f, _ in frames[:4]}))] = pr.stderr[-3000:]
+    if pr.returncode != 0 and not races and os.environ.get("VERIF_DEBUG"):
+        open(os.environ["VERIF_DEBUG"], "a").write(pr.stderr[-20000:] + "\n=====\n")
     if pr.returncode != 0 and not races:
         raise Inconclusive("race-instrumented workload failed rc=%d: %s" % (pr.returncode, pr.stderr[-1500:]))
     for key, text in races.items():
@@ -115,7 +117,7 @@ def parse_races(stderr):
     out = {}
     for block in stderr.split("WARNING: DATA RACE")[1:]:
         block = block.split("==================")[0]
-        frames = re.findall(r'\n\s+(/repo/[^\s:]+):(\d+)', block)
+        frames = re.findall(r'\n\s+(' + re.escape(os.path.realpath(REPO)) + r'/[^\s:]+):(\d+)', block)    # frames in the repository under test
         if not frames:
             continue
         files = sorted({os.path.basename(f) for f, _ in frames[:6]})
